@@ -256,8 +256,8 @@ void fb_inv_exgcd(fb_t c, const fb_t a) {
 		bv = RLC_FB_BITS + 1;
 		j = bu - bv;
 
-		/* While (u != 1). */
-		while (1) {
+		/* While (u != 1): deg(u) decides on entry, the test below afterwards. */
+		while (bu > 1) {
 			/* If j < 0 then swap(u, v), swap(g1, g2), j = -j. */
 			if (j < 0) {
 				t = u;
